@@ -825,3 +825,23 @@ Definition rooted_tocb (toc : list entry) : bool :=
        forallb (fun ke : nat * entry =>
          negb (is_suffix_proper (clean (e_name (snd ke))) (clean (e_name (snd je)))) || Nat.ltb (fst ke) (fst je))
          (number 0 toc)) (number 0 toc).
+
+(* a hardlink entry: its name is not the root; its target is checked positionally in hardlink_tocb *)
+Definition link_entryb (e : entry) : bool :=
+  etype_eqb (e_type e) THardlink && negb (path_eqb (clean (e_name e)) []).
+
+(* implicit parents, an optional explicit root entry AND backward hardlinks: every hardlink names (after cleaning) an
+   EARLIER entry that is not a directory (it may itself be a hardlink: chains), whatever has entries below it is a directory *)
+Definition hardlink_tocb (toc : list entry) : bool :=
+  forallb (fun e => entry_okb e || root_entryb e || link_entryb e) toc
+  && nodup_paths (map (fun e => clean (e_name e)) toc)
+  && forallb (fun je : nat * entry =>
+       forallb (fun ke : nat * entry =>
+         negb (is_suffix_proper (clean (e_name (snd ke))) (clean (e_name (snd je))))
+         || (Nat.ltb (fst ke) (fst je) && etype_eqb (e_type (snd ke)) TDir))
+         (number 0 toc)
+       && (negb (etype_eqb (e_type (snd je)) THardlink)
+           || existsb (fun ke : nat * entry =>
+                Nat.ltb (fst ke) (fst je) && path_eqb (clean (e_name (snd ke))) (clean (e_hl (snd je)))
+                && negb (etype_eqb (e_type (snd ke)) TDir)) (number 0 toc)))
+       (number 0 toc).
